@@ -55,7 +55,7 @@ def plan(tier, seed):
 
 def mandatory(tier):
     out = [f"matmul/{a}x{b}/{ba}x{bb}/D{D}" for a in FORMS for b in FORMS for ba in BATCH for bb in BATCH for D in (2, 3)]
-    out += [f"order/{o}" for o in ORDERS] + ["euler2d", "euler_angles/ZXZ", "euler_angles/XZX", "quaternion", "angle_axis", "setters/Parameter", "setters/buffer", "setters/requires_grad_toggle", "transform_points", "transform_vectors", "builders", "quaternion_getter/negative_w"]
+    out += [f"order/{o}" for o in ORDERS] + ["euler2d", "euler_angles/ZXZ", "euler_angles/XZX", "quaternion", "angle_axis", "setters/Parameter", "setters/buffer", "setters/requires_grad_toggle", "transform_points", "transform_vectors", "builders", "quaternion_getter/negative_w", "matmul/three_operands"]
     return out
 
 
@@ -89,8 +89,16 @@ def matmul(ctx, D):
         ref = L.full(a, D) @ L.full(b, D)
         with ctx.guard("homogeneous_matmul", **info):
             ctx.bucket(f"matmul/{fa}x{fb}/{ba}x{bb}/D{D}")
-            c = homogeneous_matmul(torch.tensor(a), torch.tensor(b))
+            ta, tb_ = torch.tensor(a), torch.tensor(b)
+            c = homogeneous_matmul(ta, tb_)
+            c_first = c.clone()
             ctx.close("matmul_is_composition", L.full(c.numpy(), D), ref, tol * 10, key=f"matmul/{fa}x{fb}", **info)
+            # composing is a function of its operands: they are left as they were, the same call returns the same
+            # again, and an earlier result does not change when the call is repeated
+            c_second = homogeneous_matmul(ta, tb_)
+            ctx.true("matmul_operands_unchanged", bool((ta.numpy() == a).all()) and bool((tb_.numpy() == b).all()), key=f"matmul/operands_mutated/{fa}x{fb}", **info)
+            ctx.close("matmul_repeatable", c_second, c_first.numpy(), 0.0, key=f"matmul/repeat/{fa}x{fb}", **info)
+            ctx.close("matmul_earlier_result_unaffected", c, c_first.numpy(), 0.0, key=f"matmul/repeat/{fa}x{fb}", **info)
             ctx.true("matmul_leading_shape", tuple(c.shape[:-2]) == tuple(ref.shape[:-2]), key="matmul/shape", got=list(c.shape), want=list(ref.shape), **info)
             h = hmm(torch.tensor(a), torch.tensor(b))
             ctx.true("hmm_returns_D_by_D_plus_1", tuple(h.shape[-2:]) == (D, D + 1), key="hmm/shape", got=list(h.shape), **info)
@@ -110,6 +118,13 @@ def matmul(ctx, D):
         ctx.close("vector_translation_form", L.full(c.numpy(), D), L.full(t, D) @ L.full(A, D), tol, key="matmul/translationxsquare")
         c3 = homogeneous_matmul(torch.tensor(t), torch.tensor(H), torch.tensor(A))
         ctx.close("three_operands", L.full(c3.numpy(), D), L.full(t, D) @ L.full(H, D) @ L.full(A, D), tol * 10, key="matmul/three")
+        # every ordered triple of operand forms (the type of an intermediate result matters for the third operand)
+        for f1, f2, f3 in itertools.product(FORMS, FORMS, FORMS):
+            o1, o2, o3 = make(rng, f1, "none", D), make(rng, f2, "N" if f2 == f1 else "none", D), make(rng, f3, "none", D)
+            with ctx.guard("homogeneous_matmul(3 operands)", key=f"exc/matmul3/{f1}x{f2}x{f3}", D=D):
+                c3 = homogeneous_matmul(torch.tensor(o1), torch.tensor(o2), torch.tensor(o3))
+                ctx.close("three_operands_compose_left_to_right", L.full(c3.numpy(), D), L.full(o1, D) @ L.full(o2, D) @ L.full(o3, D), tol * 100, key=f"matmul/three/{f1}x{f2}x{f3}", D=D)
+        ctx.bucket("matmul/three_operands")
         ci = homogeneous_matmul(torch.tensor(np.round(t * 4).astype(np.int64)), torch.tensor(A, dtype=torch.float32))
         ctx.close("integer_first_operand", L.full(ci.double().numpy(), D), L.full(np.round(t * 4), D) @ L.full(A.astype(np.float32), D), 1e-5, key="matmul/dtype")
         ctx.true("integer_first_operand_dtype", ci.dtype == torch.float32, key="matmul/dtype", got=str(ci.dtype))
